@@ -12,7 +12,7 @@ handlers `Nsq.Model.HttpApi` left abstract:
   `lg.ParseLogLevel` = `strings.ToLower` (Unicode: `İ` U+0130 and the Kelvin sign lower-case to ASCII)
   and `nsqlookupd_tcp_addresses` through `json.Unmarshal(body, &[]string)` (an explicit recogniser
   of exactly the accepted texts);
-* `/debug/setblockrate`, `/debug/freememory` (PlainText handlers that return `nil, nil`; finding F18:
+* `/debug/setblockrate`, `/debug/freememory` (PlainText handlers that return `nil, nil`; finding F24:
   `PlainText` panicked on a nil result → 500; modelled as repaired: 200, empty body) and the nine
   `net/http/pprof` registrations (standard library: `external`).
 
@@ -145,7 +145,7 @@ def renderV1 : HRes → Wire
   | .okJson d => ⟨.s200, true, true, .json d⟩
   | .external => ⟨.external, false, false, .external⟩
 
-/-- `PlainText` (with the F18 repair: a nil result is an empty 200 instead of a panic → 500). -/
+/-- `PlainText` (with the F24 repair: a nil result is an empty 200 instead of a panic → 500). -/
 def renderPlain : HRes → Wire
   | .err s m => ⟨s, false, false, .text m⟩
   | .errText s => ⟨s, false, false, .freeText⟩
@@ -156,7 +156,7 @@ def renderPlain : HRes → Wire
   | .okJson _ => ⟨.s500, true, true, .errJson "INTERNAL_ERROR"⟩   -- `panic("unknown response type")`; no plain handler returns one (theorem)
   | .external => ⟨.external, false, false, .external⟩
 
-/-- The same decorator before F18 (`default: panic(...)` also for nil). Kept for the witness. -/
+/-- The same decorator before F24 (`default: panic(...)` also for nil). Kept for the witness. -/
 def renderPlainOld : HRes → Wire
   | .okNil => ⟨.s500, true, true, .errJson "INTERNAL_ERROR"⟩
   | r => renderPlain r
